@@ -377,13 +377,12 @@ class OscarLoader(BaseLoader):
             impact_parameter = float(line_split[-3])
             impact_parameters.append(impact_parameter)
 
-        # update the list with the num_output_per_event_ for the case
-        # that only certain events are loaded from the file
-        if self.num_output_per_event_.shape[0] == 0:
-            impact_parameters = []
-        else:
-            idx_list = self.num_output_per_event_[:, 0]
-            impact_parameters = [impact_parameters[i] for i in idx_list]
+        # keep the impact parameters of the events that were loaded (only
+        # certain events may be selected, and constructor filters may have
+        # removed events, after which the labels are renumbered)
+        impact_parameters = [
+            impact_parameters[i] for i in self.loaded_event_indices_
+        ]
 
         return impact_parameters
 
@@ -601,6 +600,10 @@ class OscarLoader(BaseLoader):
         data: List[Particle] = []
         num_read_lines = self.__get_num_read_lines()
         cut_events = 0
+        # position in the file of the event being read and of every event
+        # that is kept (the constructor filters can remove whole events)
+        event_index = 0
+        self.loaded_event_indices_: List[int] = []
         with open(self.PATH_OSCAR_, "r") as oscar_file:
             self._skip_lines(oscar_file)
             # From here on only the selected events matter: keep their rows,
@@ -616,6 +619,7 @@ class OscarLoader(BaseLoader):
                     event_start : event_end + 1
                 ]
                 self.num_events_ = int(event_end - event_start + 1)
+                event_index = int(event_start)
             if len(self.num_output_per_event_) > 0:
                 first_label = int(self.num_output_per_event_[0, 0])
             for i in range(0, num_read_lines):
@@ -665,8 +669,10 @@ class OscarLoader(BaseLoader):
                                 ] -= 1
                     if len(data) != 0 or old_data_len == 0:
                         particle_list.append(data)
+                        self.loaded_event_indices_.append(event_index)
                     else:
                         cut_events = cut_events + 1
+                    event_index += 1
                     data = []
                 elif "#" in line:
                     raise ValueError("Comment line unexpectedly found: " + line)
